@@ -105,6 +105,13 @@ class UNet(nn.Module):
         )
 
         x_in_shape = int(filters * (filters_rate ** (down_blocks + stem_blocks)))
+        self._max_channels = x_in_shape
+        if not middle_block:
+            # Without the middle block the encoder output keeps the width of the last
+            # down block, so that is what the first decoder block receives.
+            x_in_shape = int(
+                filters * (filters_rate ** (down_blocks + stem_blocks - 1))
+            )
 
         self.dec = Decoder(
             x_in_shape=x_in_shape,
@@ -146,7 +153,7 @@ class UNet(nn.Module):
     @property
     def max_channels(self):
         """Returns the maximum channels of the UNet (last layer of the encoder)."""
-        return self.dec.x_in_shape
+        return self._max_channels
 
     def forward(self, x: torch.Tensor) -> Tuple[List[torch.Tensor], List]:
         """Forward pass through the U-Net architecture.
